@@ -634,7 +634,7 @@ def run(cfg, ops=None, rng=None):
                         # no callable of this universe raises and every setting is legal: the exporter must not either
                         raise Violation(prop, "raises", step, "raises:iteration:" + type(exc).__name__,
                                         "step %d: iterating the exporter raised %s: %s after lines %r" % (step, type(exc).__name__, exc, collected[c][-3:]))
-            elif kind == "tofile" and not cursors and cfg["kind"] == "mermaid":
+            elif kind == "tofile" and not cursors:
                 snap = snap_of(world)
                 if check_alive(world):
                     raise Violation("GUARD", "guard", step, "guard", "forest inconsistent before to_file at step %d" % step)
@@ -644,7 +644,10 @@ def run(cfg, ops=None, rng=None):
                 fd, path = tempfile.mkstemp(prefix="anytree-mermaid-", suffix=".md")
                 os.close(fd)
                 try:
-                    lib(step, "to_file", exporter.to_file, path)
+                    if cfg["kind"] == "mermaid":
+                        lib(step, "to_file", exporter.to_file, path)
+                    else:
+                        lib(step, "to_dotfile", exporter.to_dotfile, path)
                     with open(path, "rb") as fh:
                         raw = fh.read()
                 finally:
@@ -653,10 +656,12 @@ def run(cfg, ops=None, rng=None):
                 text = buf.getvalue()
                 lines = lib(step, "list(exporter)", list, exporter)
                 judge.judge(step, lines, snap, eff_names(), res)
-                want = "```mermaid\n" + "".join("%s\n" % ln for ln in lines) + "```"
+                want = "".join("%s\n" % ln for ln in lines)
+                if cfg["kind"] == "mermaid":
+                    want = "```mermaid\n" + want + "```"
                 res.bump("to_file_calls")
                 if text != want:
-                    raise Violation(prop, "to_file", step, "to_file", "step %d: to_file wrote %r, expected %r" % (step, text, want))
+                    raise Violation(prop, "to_file", step, "to_file", "step %d: to_file/to_dotfile wrote %r, expected the lines of an iteration: %r" % (step, text, want))
             elif kind == "abandon" and not cursors:
                 # an iteration that is started and never finished (a consumer that stops reading, an export aborted half-way):
                 # it must not leave anything behind that a later export can see
@@ -683,6 +688,7 @@ def run(cfg, ops=None, rng=None):
                 else:
                     keep.append(it)
                 res.bump("abandoned_iterations")
+                res.bump("fault_abandoned_iteration")
             elif kind == "forget" and not cursors:
                 i = op["n"]
                 if i < n and i != cfg["start"] and world.nodes[i] is not None and not world.nodes[i].children and i not in targets:
@@ -732,6 +738,9 @@ def run(cfg, ops=None, rng=None):
                     res.bump("moves" if status == "ok" else "moves_refused_or_aborted")
                     if world.fired:
                         res.bump("moves_aborted_by_hook_fault")
+                        for f in world.fired:
+                            res.bump("fault_" + f[4])
+                            res.bump("fault@" + f[1])
                     if check_alive(world):
                         raise Violation("GUARD", "guard", step, "guard", "forest inconsistent after %r" % (op,))
             elif kind == "rename" and not cursors:
